@@ -105,7 +105,20 @@ func c09RequestHead(agree bool) {
 // consume more than the stream holds.
 func vhC08SmallBuffers() {
 	b := c05Sym("buf", vParam("bufLen", 3))
-	switch vChoose("parser", 8) {
+	switch vChoose("parser", 10) {
+	case 8:
+		// the multipart boundary parameter of an arbitrary Content-Type tail
+		var h RequestHeader
+		h.SetContentTypeBytes(append([]byte("multipart/form-data; boundary="), b...))
+		bd := h.MultipartFormBoundary()
+		vAssert("boundary-bounded", len(bd) <= len(b))
+	case 9:
+		// …and a whole request with such a Content-Type and a body, through the reader
+		req := append([]byte("POST / HTTP/1.1\r\nHost: a\r\nContent-Length: 2\r\nContent-Type: multipart/form-data; boundary="), b...)
+		req = append(req, "\r\n\r\nxy"...)
+		var r Request
+		err := r.ReadLimitBody(bufio.NewReaderSize(bytes.NewReader(req), 256), 1024)
+		vAssert("multipart-request-returned", err != nil || len(r.Body()) <= 2)
 	case 0:
 		var a Args
 		a.ParseBytes(b)
